@@ -26,7 +26,8 @@ Next == /\ l < Len(Trace[tid].calls)
                va2 == IF c.fn = "va" THEN r[2] ELSE va
                viol == IF c.out = c.fresh THEN {} ELSE {"outcome_depends_on_history"}
                drift == (IF r[1] = Norm(c.out) THEN {} ELSE {"model_outcome"})
-                        \cup (IF Keys(sv2) = c.svk /\ Keys(va2) = c.vak THEN {} ELSE {"model_cache_keys"})
+                        \* (c.obs: the implementation still keeps its memo dicts where the harness can list their keys)
+                        \cup (IF ("obs" \in DOMAIN c /\ ~c.obs) \/ (Keys(sv2) = c.svk /\ Keys(va2) = c.vak) THEN {} ELSE {"model_cache_keys"})
            IN /\ sv' = sv2 /\ va' = va2
               /\ viol = {} \/ Report("viol", tid, l + 1, viol)
               /\ drift = {} \/ Report("drift", tid, l + 1, drift)
